@@ -24,7 +24,7 @@ RULE = ("(a) every generated program (typed generator, depth <= 3) and every tes
         "tests/dwz-partial2-1, tests/nontrivial-types.o; raw and cooked) is executed n+2 times with the result set "
         "destroyed after k = 0..n+1 pulls; (b) every prefix and single-token deletion of a sample of them is compiled "
         "(most are rejected); LeakSanitizer runs after each batch with all API objects destroyed; (c) libFuzzer over "
-        "query bytes + execution mode + number of pulls; (d) ~1100 templates and random programs of blocks nested 2-4 deep that read captured variables of every enclosing level (before, inside and after an inner block, through parameters and local bindings).  Non-trivial: a case that abandons a non-empty result set, "
+        "query bytes + execution mode + number of pulls; (d) ~1100 templates and random programs of blocks nested 2-4 deep that read captured variables of every enclosing level (before, inside and after an inner block, through parameters and local bindings); (e) 2000 backquoted captures (1-7 backquotes dropping values of mixed types from under the new sequence, then words dispatched on what is left) compared with the binder that takes the same values off.  Non-trivial: a case that abandons a non-empty result set, "
         "applies a closure, goes through if/overload state unions, or is a rejected query; plus distinct coverage "
         "features reached by the fuzzer (reported separately).  Distinct by program text x input x pull count.")
 
@@ -230,6 +230,62 @@ def work_closures(task):
     finally:
         drv.kill()
     return ev
+
+
+def work_backtick(task):
+    """The (undocumented) backquoted capture: n backquotes before `[` drop n values from under the new sequence --
+    the one caller of stack::drop(n).  Stacks of mixed types 2-9 deep, 1-7 backquotes, followed by words that are
+    dispatched on the types of what is left.  Oracle: the sanitizers, and the same program with the n values taken
+    off by a binder instead: (|X1 .. Xn| [E])."""
+    seed, start, count = task
+    ev = Evidence()
+    drv = Driver()
+    vals = {"c": ["1", "0x10", "-3"], "s": ['"x"', '"ab"'], "q": ["[]", "[1, 2]", '["a"]']}
+    tails = ["", "add", "drop add", "swap add", "drop drop add", "length", "swap length", "drop length", "drop \"y\" add", "drop drop length",
+             "drop drop drop add", "?empty", "drop ?find", "type", "drop type swap type"]
+    try:
+        for i in range(start, start + count):
+            if len(ev.violations) >= 30:
+                break       # verdict settled
+            rnd = random.Random((seed << 32) ^ (i * 2654435761 & 0xffffffff) ^ 0xBAC)
+            n = rnd.randint(1, 7)
+            keep = rnd.randint(1, 3)
+            stack = [rnd.choice(vals[rnd.choice("csq")]) for _ in range(keep + n)]
+            body = rnd.choice(["7", "", "1, 2", '"z"'])
+            K = rnd.choice(tails)
+            q1 = "%s %s[%s] %s" % (" ".join(stack), "`" * n, body, K)
+            q0 = "%s (|%s| [%s]) %s" % (" ".join(stack), " ".join("X%d" % k for k in range(n)), body, K)
+            try:
+                r1, r0 = drv.run(q1, limit=50), drv.run(q0, limit=50)
+                ev.case(key=("backtick", q1), nontrivial=n >= 2)
+                ev.label("backtick-capture")
+                if n >= 4:
+                    ev.label("backtick-capture:4+")
+                a = ([json_stack(s_) for s_ in r1.get("res", [])], "cerror" in r1, "error" in r1, r1.get("stderr", b"").count(b"Error"))
+                b = ([json_stack(s_) for s_ in r0.get("res", [])], "cerror" in r0, "error" in r0, r0.get("stderr", b"").count(b"Error"))
+                if a != b:
+                    ev.violations.append({"property": PID, "kind": "backtick", "query": q1, "reference": q0, "signature": "C13:backtick:" + q1,
+                                          "reason": "dropping %d values below a captured sequence leaves a stack that behaves differently from the one a binder leaves: %r vs %r; stderr %r"
+                                          % (n, a, b, r1.get("stderr", b"")[-300:])})
+            except DriverCrash as e:
+                ev.violations.append(crash_record("backtick", q1, e.report))
+            except DriverTimeout:
+                ev.inconc("watchdog")
+        rc, txt = drv.close()
+        if rc not in (0,):
+            ev.violations.append({"property": PID, "kind": "exit", "reason": "driver exit status %s at orderly shutdown: %s" % (rc, txt[-3000:]),
+                                  "signature": "C13:exit:" + first_repo_frame(txt)})
+    finally:
+        drv.kill()
+    return ev
+
+
+def json_stack(st):
+    def cv(v):
+        if v["t"] == "q":
+            return ("q", tuple(cv(e) for e in v["e"]))
+        return (v["t"], v.get("v"), v.get("x"), v.get("d"))
+    return tuple(cv(v) for v in st)
 
 
 def work_corpus(task):
@@ -470,6 +526,8 @@ def main(tier, seed):
     ncl = 3000 if tier == "quick" else 40000
     ev.merge(run_pool(work_closures, [(seed, s, min(100, ncl - s)) for s in range(0, ncl, 100)]))
     ev.extra["closure_programs"] = ncl
+    nbt = 2000 if tier == "quick" else 40000
+    ev.merge(run_pool(work_backtick, [(seed, s, min(100, nbt - s)) for s in range(0, nbt, 100)]))
     nq = len(seeds_from_tests())
     step = max(5, nq // 16)
     ev.merge(run_pool(work_corpus, [(lo, min(lo + step, nq)) for lo in range(0, nq, step)]))
@@ -509,7 +567,7 @@ def main(tier, seed):
     return finish(PID, tier, seed, ev, RULE, t0,
                   assumptions=["uninstrumented libdw/libelf internals are trusted",
                                "dynamic detection on executed paths only"],
-                  health={"fuzzer ran": feats > 0, "nested closures ran": ev.labels.get("closure-nest", 0) > 2000 and ev.labels.get("closure-nest:rejected", 0) < 100, "leak checks ran": ev.labels.get("leak-checks", 0) > 0,
+                  health={"fuzzer ran": feats > 0, "backquoted captures with >= 4 backquotes": ev.labels.get("backtick-capture:4+", 0) > 500, "nested closures ran": ev.labels.get("closure-nest", 0) > 2000 and ev.labels.get("closure-nest:rejected", 0) < 100, "leak checks ran": ev.labels.get("leak-checks", 0) > 0,
                           "non-empty result sets were abandoned": ev.labels.get("abandoned-non-empty", 0) > 0})
 
 
